@@ -243,7 +243,10 @@ func (i *IRCServer) Unmarshal(data []byte) (uint64, error) {
 		if s.Server {
 			i.serverSessions = append(i.serverSessions, newSession.Id.Id)
 		}
-		i.nicks[NickToLower(newSession.Nick)] = newSession
+		if newSession.Nick != "" {
+			// Sessions which did not send NICK yet do not own a nickname.
+			i.nicks[NickToLower(newSession.Nick)] = newSession
+		}
 	}
 	for _, c := range snapshot.Channels {
 		nicks := make(map[lcNick]*[maxChanMemberStatus]bool, len(c.Nicks))
